@@ -1,0 +1,118 @@
+//! Observation hooks for external runtime monitors
+//!
+//! This module exists only with the off-by-default `verif-hooks` feature. Nothing here changes
+//! the behaviour of the crate: the hooks only expose otherwise private derived state and call
+//! observers installed by a monitoring harness.
+
+use crate::bitboard::Bitboard;
+use crate::board::Board;
+use crate::moves::Move;
+use crate::types::{Color, Coord};
+use crate::{attack, between};
+
+use std::cell::Cell;
+
+/// Combined occupancy set stored in the board (the only derived field without a public getter)
+#[inline]
+pub fn board_all(b: &Board) -> Bitboard {
+    b.all
+}
+
+/// King attack table lookup, as used by the library
+#[inline]
+pub fn attack_king(c: Coord) -> Bitboard {
+    attack::king(c)
+}
+
+/// Knight attack table lookup, as used by the library
+#[inline]
+pub fn attack_knight(c: Coord) -> Bitboard {
+    attack::knight(c)
+}
+
+/// Pawn attack table lookup, as used by the library
+#[inline]
+pub fn attack_pawn(color: Color, c: Coord) -> Bitboard {
+    attack::pawn(color, c)
+}
+
+/// Rook magic lookup, as used by the library
+#[inline]
+pub fn attack_rook(c: Coord, occupied: Bitboard) -> Bitboard {
+    attack::rook(c, occupied)
+}
+
+/// Bishop magic lookup, as used by the library
+#[inline]
+pub fn attack_bishop(c: Coord, occupied: Bitboard) -> Bitboard {
+    attack::bishop(c, occupied)
+}
+
+/// Strictly-between lookup on diagonals, as used by the library
+#[inline]
+pub fn between_bishop_strict(a: Coord, b: Coord) -> Bitboard {
+    between::bishop_strict(a, b)
+}
+
+/// Strictly-between lookup on lines, as used by the library
+#[inline]
+pub fn between_rook_strict(a: Coord, b: Coord) -> Bitboard {
+    between::rook_strict(a, b)
+}
+
+/// Diagonal alignment predicate, as used by the library
+#[inline]
+pub fn between_is_bishop_valid(a: Coord, b: Coord) -> bool {
+    between::is_bishop_valid(a, b)
+}
+
+/// Line alignment predicate, as used by the library
+#[inline]
+pub fn between_is_rook_valid(a: Coord, b: Coord) -> bool {
+    between::is_rook_valid(a, b)
+}
+
+/// Event reported to the apply/undo observer
+#[derive(Debug, Copy, Clone, PartialEq, Eq)]
+pub enum Event {
+    /// A move has just been applied by the internal primitive
+    Make,
+    /// A move has just been undone by the internal primitive
+    Unmake,
+}
+
+/// Observer called at the end of every internal apply and undo
+pub type Observer = fn(Event, &Board, Move);
+
+/// Observer called before every push into the unchecked move list with the current
+/// length and the capacity of the list
+pub type ListObserver = fn(usize, usize);
+
+thread_local! {
+    static OBSERVER: Cell<Option<Observer>> = const { Cell::new(None) };
+    static LIST_OBSERVER: Cell<Option<ListObserver>> = const { Cell::new(None) };
+}
+
+/// Installs (or removes) the apply/undo observer for the current thread
+pub fn set_observer(o: Option<Observer>) {
+    OBSERVER.with(|c| c.set(o));
+}
+
+/// Installs (or removes) the unchecked move list observer for the current thread
+pub fn set_list_observer(o: Option<ListObserver>) {
+    LIST_OBSERVER.with(|c| c.set(o));
+}
+
+#[inline]
+pub(crate) fn observe(ev: Event, b: &Board, mv: Move) {
+    if let Some(f) = OBSERVER.with(|c| c.get()) {
+        f(ev, b, mv);
+    }
+}
+
+#[inline]
+pub(crate) fn observe_list_push(len: usize, capacity: usize) {
+    if let Some(f) = LIST_OBSERVER.with(|c| c.get()) {
+        f(len, capacity);
+    }
+}
